@@ -241,7 +241,67 @@ def check_results_of_rewrites(ctx, case):
                     return ctx.fail(("clone_from_root-wrong-node",), case, {"after": f"{name} at {E.text_of(n)}", "node": E.text_of(pick)})
 
 
+def check_inplace(ctx, case):
+    """Cloning after the tree CHANGED under its nodes: every node is asked for clone_from_root() (and get_root()) first, a
+    rule is applied in place - which may put the surviving nodes under a new root - and every node of the tree as it is now
+    is asked again: the copy must be a copy of the current whole tree with the returned node at the asking node's position."""
+    root = E.parse(case["text"])
+    if root is None or len(A.preorder(root)) > 40 or E.has_huge_constant(root):
+        return
+    rules = E.rule_instances()
+    ctx.count("inplace:walks")
+    for ri, ni in case["steps"]:
+        nodes = A.inorder(root)
+        for n in nodes:
+            try:
+                n.get_root()
+                n.clone_from_root()
+            except Exception:
+                pass
+        name, rule = rules[ri % len(rules)]
+        try:
+            cands = [n for n in nodes if rule.can_apply_to(n)]
+        except Exception:
+            return
+        if not cands:
+            continue
+        n = cands[ni % len(cands)]
+        where = f"{name} at {E.text_of(n)} (in place)"
+        try:
+            root = E._root(rule.apply_to(n).result)
+        except Exception:
+            return
+        if A.audit(root) is not None or E.has_huge_constant(root):
+            return
+        ctx.count("inplace:rewrites")
+        full = ids_sig(root)
+        for m in A.preorder(root):
+            path = A.path_of(m)
+            try:
+                c = m.clone_from_root()
+            except Exception as e:
+                return ctx.fail(("clone_from_root-raised",) + E.exc_site(e)[:1], case, {"after": where, "node": E.text_of(m), "error": repr(e)[:200]})
+            ctx.count("clone_from_root_calls")
+            det = {"after": where, "node": E.text_of(m), "path": path, "tree_now": E.text_of(root)}
+            if c is None or not hasattr(c, "parent"):
+                return ctx.fail(("clone_from_root-returned-no-node",), case, det)
+            try:
+                croot = E._root(c)
+            except RuntimeError:
+                return ctx.fail(("clone_from_root-malformed",), case, det)
+            if ids_sig(croot) != full:
+                det["copied_tree"] = E.text_of(croot)
+                return ctx.fail(("clone_from_root-tree-differs", "after-in-place-rewrite"), case, det)
+            if A.follow(croot, path) is not c or c.id != m.id:
+                return ctx.fail(("clone_from_root-wrong-node", "after-in-place-rewrite"), case, det)
+            if m.get_root() is not root:
+                return ctx.fail(("get_root-stale", "after-in-place-rewrite"), case, det)
+        ctx.nontriv(("inplace", case["text"], repr(case["steps"])))
+
+
 def replay(ctx, case):
+    if "steps" in case:
+        return check_inplace(ctx, case)
     check_tree(ctx, case)
     if case.get("build") != "ctor":
         check_results_of_rewrites(ctx, case)
@@ -262,3 +322,12 @@ def run(ctx):
     ctor_cases = st.builds(lambda t, col: {"text": t, "pre": [], "build": "ctor", "child_on_left": col}, ctor_texts, st.booleans())
     hyp_run(ctx, "trees", st.one_of(parser_cases, ctor_cases), check_tree, ctx.n(2500, 12000))
     hyp_run(ctx, "rewrite-results", parser_cases, check_results_of_rewrites, ctx.n(600, 4000))
+    # in-place rewrites between two rounds of clone_from_root on every node
+    istep = 8 if ctx.tier == "quick" else 1
+    for i, t in enumerate(texts):
+        if i % istep != ctx.seed % istep or (i // istep) % ctx.nshards != ctx.shard:
+            continue
+        ctx.count("evaluations")
+        check_inplace(ctx, {"text": t, "steps": [[(i + 3 * k) % 11, i + k] for k in range(3)]})
+    walk = st.builds(lambda t, steps: {"text": t, "steps": steps}, G.tree_text(10), st.lists(st.tuples(st.integers(0, 10), st.integers(0, 40)).map(list), min_size=1, max_size=4))
+    hyp_run(ctx, "in-place", walk, check_inplace, ctx.n(400, 3000))
